@@ -155,6 +155,14 @@ def Cmp.eval (c : Cmp) (a b : Rat) : Bool :=
   match c with
   | .lt => a < b | .le => a ≤ b | .gt => a > b | .ge => a ≥ b
 
+/-- `Unit._compare` between two units (`<`, `<=`, `>`, `>=`):
+`op(self._get_factor(other), 1)` -/
+def unitCmp (s : QState) (c : Cmp) (u v : Nat) : Except Err Bool :=
+  match s.reg.unitFactor u v with
+  | none => .error .IncompatibleUnitsError
+  | some none => .error .UnitConversionError
+  | some (some f) => .ok (c.eval f 1)
+
 /-- `Quantity.__eq__` between two quantities -/
 def qtyEq (s : QState) (a b : Qty) : Except Err Bool :=
   if s.reg.unitCls a.unit != s.reg.unitCls b.unit then .ok false
